@@ -9,3 +9,7 @@ import SoxrModel.Properties.C04Coef
 #print axioms Soxr.Properties.C04Coef.table_writes_in_bounds
 #print axioms Soxr.Properties.C04Coef.kernel_reads_in_bounds
 #print axioms Soxr.Properties.C04Coef.table_cells_distinct
+#print axioms Soxr.Properties.C04Coef.comp_scales
+#print axioms Soxr.Properties.C04Coef.F_scales
+#print axioms Soxr.Properties.C04Coef.gain_scales_whole_table
+#print axioms Soxr.Properties.C04Coef.E_scales
